@@ -40,6 +40,7 @@ type dtr struct {
 	resultTypes []types.Type
 	calls map[string]bool // functions called by the one being translated
 	curFunc string
+	nOracle int // map iterations of the function being translated (one order oracle each)
 	curKey  string // enum mode: <method>_<receiver type>
 	mode    string // "drv" (package vedirect) or "api" (package vedirectapi)
 }
@@ -847,6 +848,16 @@ func (t *dtr) call(x *ast.CallExpr, tv types.TypeAndValue) ([]bnd, string) {
 		p, a := t.ex(x.Args[0])
 		return p, "(g_len " + a + ")"
 	case "append":
+		if ct := t.coqType(tv.Type); t.mode == "api" && (ct == "(list (Z * string))" || ct == "(list (list byte))") && x.Ellipsis == token.NoPos {
+			p, a := t.ex(x.Args[0])
+			var parts []string
+			for _, el := range x.Args[1:] {
+				q, s := t.ex(el)
+				p = append(p, q...)
+				parts = append(parts, s)
+			}
+			return p, fmt.Sprintf("(%s ++ [%s])", a, strings.Join(parts, "; "))
+		}
 		if t.mode == "reg" && t.coqType(tv.Type) == "(list reg)" {
 			p, a := t.ex(x.Args[0])
 			if x.Ellipsis != token.NoPos {
@@ -877,6 +888,15 @@ func (t *dtr) call(x *ast.CallExpr, tv types.TypeAndValue) ([]bnd, string) {
 		}
 		return p, fmt.Sprintf("(%s ++ [%s])", a, strings.Join(parts, "; "))
 	case "make":
+		if ct := t.coqType(tv.Type); t.mode == "api" && (ct == "(list (Z * string))" || ct == "(list (list byte))") && len(x.Args) >= 2 {
+			if lv := t.info.Types[x.Args[1]].Value; lv == nil || lv.ExactString() != "0" {
+				t.bad(x, "make with a non-zero length")
+			}
+			if ct == "(list (Z * string))" {
+				return nil, "(@nil (Z * string))"
+			}
+			return nil, "(@nil (list byte))"
+		}
 		if t.mode == "reg" && t.coqType(tv.Type) == "(list reg)" && len(x.Args) >= 2 {
 			if lv := t.info.Types[x.Args[1]].Value; lv == nil || lv.ExactString() != "0" {
 				t.bad(x, "make of a register slice with a non-zero length")
@@ -1744,6 +1764,29 @@ func (t *dtr) assignedAll(l []ast.Stmt) []types.Object {
 }
 
 func (t *dtr) rangeStmt(x *ast.RangeStmt, rest []ast.Stmt, c *dctx) string {
+	if t.mode == "api" && x.Tok == token.DEFINE && t.coqType(t.info.Types[x.X].Type) == "(list ((Z * string) * bool))" {
+		pre, l := t.ex(x.X)
+		kid, ok1 := x.Key.(*ast.Ident)
+		vid, ok2 := x.Value.(*ast.Ident)
+		if !ok1 || !ok2 || kid.Name == "_" || vid.Name == "_" {
+			t.bad(x, "range over a map needs key and value")
+		}
+		kn, vn := t.declare(t.info.Defs[kid]), t.declare(t.info.Defs[vid])
+		t.nOracle++
+		return wrapBinds(pre, t.loop(x, "range_map (Z * string) bool", fmt.Sprintf("ord%d %s", t.nOracle, l), kn+" "+vn+" ", x.Body.List, rest, c))
+	}
+	if t.mode == "api" && x.Tok == token.DEFINE && t.coqType(t.info.Types[x.X].Type) == "(list (Z * string))" {
+		pre, l := t.ex(x.X)
+		if id, ok := x.Key.(*ast.Ident); !ok || id.Name != "_" {
+			t.bad(x, "range with an index variable")
+		}
+		id, ok := x.Value.(*ast.Ident)
+		if !ok || id.Name == "_" {
+			t.bad(x, "range form")
+		}
+		vn := t.declare(t.info.Defs[id])
+		return wrapBinds(pre, t.loop(x, "range_list (Z * string)", l, vn+" ", x.Body.List, rest, c))
+	}
 	if t.mode == "api" && x.Tok == token.DEFINE && t.isRegSlice(t.info.Types[x.X].Type) {
 		pre, l := t.ex(x.X)
 		if id, ok := x.Key.(*ast.Ident); !ok || id.Name != "_" {
@@ -1814,6 +1857,7 @@ func (t *dtr) rangeStmt(x *ast.RangeStmt, rest []ast.Stmt, c *dctx) string {
 
 func (t *dtr) function(fd *ast.FuncDecl) string {
 	t.curFunc = fd.Name.Name
+	t.nOracle = 0
 	t.fresh = 0
 	t.names = map[types.Object]string{}
 	t.used = map[string]int{}
@@ -1826,7 +1870,10 @@ func (t *dtr) function(fd *ast.FuncDecl) string {
 			t.bad(fd, "receiver form")
 		}
 		t.recv = t.info.Defs[fd.Recv.List[0].Names[0]]
-		if t.mode == "ble" {
+		if rt := strings.TrimPrefix(types.ExprString(fd.Recv.List[0].Type), "*"); rt == "FieldListValue" {
+			params = append(params, fmt.Sprintf("(%s : flv)", t.declare(t.recv)))
+			t.recv = nil
+		} else if t.mode == "ble" {
 			params = append(params, "(c : blecfg)")
 		} else if t.mode != "reg" && t.mode != "enum" {
 			params = append(params, "(c : cfg)")
@@ -1972,6 +2019,9 @@ func (t *dtr) function(fd *ast.FuncDecl) string {
 	if t.mode == "enum" {
 		defName = t.curKey
 	}
+	for i := 1; i <= t.nOracle; i++ {
+		params = append(params, fmt.Sprintf("(ord%d : list nat)", i)) // the iteration order of the i-th map range
+	}
 	return fmt.Sprintf("Definition go_%s %s : D %s :=\n  %s.\n", defName, strings.Join(params, " "), rtype, term)
 }
 
@@ -1984,7 +2034,7 @@ func translateDrv(repo, outPath string) {
 
 func translateApi(repo, outPath string) {
 	translatePkg(repo, outPath, "api", "vedirectapi",
-		[]string{"ReadNumberRegister", "ReadTextRegister", "ReadEnumRegister", "ReadFieldListRegister", "StreamRegisterList", "NewRegisterApi"},
+		[]string{"ReadNumberRegister", "ReadTextRegister", "ReadEnumRegister", "ReadFieldListRegister", "StreamRegisterList", "NewRegisterApi", "CommaString"},
 		"From Coq Require Import QArith.\nFrom GV Require Import Vedirect.DrvSem Gen.DrvImpl Api.ApiSem.\nImport ListNotations.\nLocal Open Scope Z_scope.\n\n",
 		"GoLite-D -> Gallina translation of the register readers and the streaming loop (tie T-gen).")
 }
@@ -2060,7 +2110,7 @@ func translatePkg(repo, outPath, mode, pkgName string, entries []string, header,
 				}
 				if fd.Recv != nil && len(fd.Recv.List) == 1 {
 					rt := strings.TrimPrefix(types.ExprString(fd.Recv.List[0].Type), "*")
-					if rt != "Vedirect" && rt != "RegisterApi" && rt != "RegisterList" && rt != "BleStruct" {
+					if rt != "Vedirect" && rt != "RegisterApi" && rt != "RegisterList" && rt != "BleStruct" && rt != "FieldListValue" {
 						continue // methods of other types are not translated
 					}
 				}
